@@ -52,10 +52,11 @@ theorem C15_faithful_prefix (h : Reachable (init p [.client g b]) c) (ht : c.ths
 FULL STATEMENT (C15_faithful): for every schedule the client's loop ENDS, having yielded exactly the
 generator's elements in order, each once, on exactly one end marker carrying the return value.
 
-Proved below (`_partial`): everything except "the loop ends under every schedule" (termination /
-deadlock-freedom of the embedded queue LTS — the liveness half of C04 is not yet a Lean theorem).
-That part is decided on the real code by the scheduler-driven oracle (a run that cannot continue is
-reported with its schedule) and on the model by exhaustive exploration of small configurations.
+Proved: the safety half below (`C15_faithful_partial`), and — further down — the liveness half:
+`C15_no_deadlock` (an execution that cannot be extended has the client's loop ended), `C15_terminates` (no
+execution is infinite), hence the full statement `C15_faithful` / `C15_faithful_run`.
+(The real code is additionally driven by the scheduler — a run that cannot continue is reported with its
+schedule — and small configurations of the model are explored exhaustively.)
 -/
 
 /-- **Faithful delivery** (safety half): whenever the client's loop has ended on a generator that does
@@ -88,8 +89,9 @@ theorem C15_faithful_partial {xs : List Nat} (hsrc : g.src = xs.map Item.val)
 
 /-
 FULL STATEMENT (C15_failure): if the generator raises after `p` elements, for every schedule the
-client yields exactly those `p` elements and then raises that exception.  Proved: all of it except that
-the loop ends under every schedule (see above).
+client yields exactly those `p` elements and then raises that exception.  Proved: the safety half below
+(`C15_failure_partial`) and the liveness half (`C15_no_deadlock`, `C15_terminates`), hence the full statement
+`C15_failure` / `C15_failure_run`.
 -/
 
 /-- **Failure delivery** (safety half): if the generator's `next` raises after the values `xs`, then
@@ -368,7 +370,8 @@ request parked on the old queue (`C15_reinit_stop_wakes`).  Not proved in Lean: 
 whose stop is skipped because it is already `exhausted` has a prefetch thread past its last `put`
 (it is inside `_stop_enqueue`), and "no handler stays blocked for ever" (liveness).  Both are decided on
 the real code by the scheduler-driven oracle (any thread left blocked is reported with its schedule)
-and on the model by exhaustive exploration of small configurations.
+and on the model by exhaustive exploration of small configurations.  (For the configuration with ONE client
+"no request stays blocked for ever" is a theorem: `C15_no_deadlock`, `C15_terminates` above.)
 -/
 
 /-- **No mixing** (every schedule, any number of concurrent clients and init / next / stop / shutdown
